@@ -94,3 +94,80 @@ theorem diff_top_error (c : Ctx Bool) {a b : DD} (hat : a.isTop = false) (hbt : 
 
 end DD
 end Crab
+
+namespace Crab
+open Patricia Patricia.Tree
+namespace DD
+
+/-- one pair of `discrete_domain::rename` on sets-as-predicates -/
+def renameStepSpec (m : Nat → Bool) (p : Nat × Nat) : Nat → Bool :=
+  if p.1 = p.2 then m
+  else if m p.1 then fun k => if k = p.2 then true else if k = p.1 then false else m k
+  else m
+
+theorem add_isTop_false (c : Ctx Bool) {a : DD} (h : a.isTop = false) (k : Nat) : (add c a k).isTop = false := by
+  simp [add, h]
+theorem remove_isTop_false (c : Ctx Bool) {a : DD} (h : a.isTop = false) (k : Nat) : (remove c a k).isTop = false := by
+  simp [remove, h]
+
+theorem renameFold_spec {c : Ctx Bool} (hc : c.SoundOn PSet.IsTrue) (ps : List (Nat × Nat))
+    (hps : ∀ p ∈ ps, p.1 < 2 ^ 64 ∧ p.2 < 2 ^ 64) :
+    ∀ {d : DD} {m : Nat → Bool}, Inv d → d.isTop = false → (∀ k, d.contain k = m k) →
+      let r := ps.foldl (fun d p =>
+        if p.1 = p.2 then d
+        else if d.contain p.1 then add c (remove c d p.1) p.2 else d) d
+      Inv r ∧ r.isTop = false ∧ ∀ k, r.contain k = (ps.foldl renameStepSpec m) k := by
+  induction ps with
+  | nil => intro d m hd ht hm; exact ⟨hd, ht, hm⟩
+  | cons p ps ih =>
+    intro d m hd ht hm
+    have hp := hps p (by simp)
+    have hps' : ∀ q ∈ ps, q.1 < 2 ^ 64 ∧ q.2 < 2 ^ 64 := fun q hq => hps q (by simp [hq])
+    simp only [List.foldl]
+    by_cases e : p.1 = p.2
+    · have : renameStepSpec m p = m := by simp [renameStepSpec, e]
+      rw [if_pos e, this]
+      exact ih hps' hd ht hm
+    · rw [if_neg e]
+      cases hcnt : d.contain p.1
+      · have : renameStepSpec m p = m := by
+          have : m p.1 = false := by rw [← hm]; exact hcnt
+          simp [renameStepSpec, e, this]
+        rw [this]
+        simpa using ih hps' hd ht hm
+      · obtain ⟨w1, l1, _⟩ := remove_spec hc hd hp.1
+        have t1 := remove_isTop_false c ht p.1
+        obtain ⟨w2, l2⟩ := add_spec hc w1 hp.2
+        have t2 := add_isTop_false c t1 p.2
+        have hm' : ∀ k, (add c (remove c d p.1) p.2).contain k = renameStepSpec m p k := by
+          intro k
+          have hmp : m p.1 = true := by rw [← hm]; exact hcnt
+          rw [l2, l1 ht, hm]
+          simp only [renameStepSpec, if_neg e, hmp, if_true]
+          by_cases h1 : k = p.2
+          · simp [h1]
+          · by_cases h2 : k = p.1 <;> simp [h1, h2]
+        simpa using ih hps' w2 t2 hm'
+
+/-- `rename(from, to)` of a value that is neither top nor bottom: defined when the vectors have
+    the same length, and the result is the left fold of the per-pair specification -/
+theorem rename_spec {c : Ctx Bool} (hc : c.SoundOn PSet.IsTrue) {a : DD} (ha : Inv a)
+    (hat : a.isTop = false) (hab : a.isBottom = false) (frm to : List Nat) (hlen : frm.length = to.length)
+    (hf : ∀ k ∈ frm, k < 2 ^ 64) (ht : ∀ k ∈ to, k < 2 ^ 64) :
+    ∃ r, rename c a frm to = some r ∧ Inv r ∧ r.isTop = false ∧
+      ∀ k, r.contain k = ((frm.zip to).foldl renameStepSpec a.contain) k := by
+  have hps : ∀ p ∈ frm.zip to, p.1 < 2 ^ 64 ∧ p.2 < 2 ^ 64 := by
+    intro p hp
+    have := List.of_mem_zip hp
+    exact ⟨hf _ this.1, ht _ this.2⟩
+  obtain ⟨w, t, l⟩ := renameFold_spec hc (frm.zip to) hps (d := a) (m := a.contain) ha hat (fun _ => rfl)
+  refine ⟨_, ?_, w, t, l⟩
+  simp [rename, hat, hab, hlen]
+
+/-- top and bottom are returned unchanged -/
+theorem rename_top_bottom (c : Ctx Bool) {a : DD} (h : a.isTop = true ∨ a.isBottom = true) (frm to : List Nat) :
+    rename c a frm to = some a := by
+  rcases h with h | h <;> simp [rename, h]
+
+end DD
+end Crab
